@@ -121,7 +121,8 @@ JudgeMemOp(e, tb) ==
             \cup V(e.mem.ok => oneCtxPerSlot, <<"C17">>, "Mem.OneContextPerSlot")
             \cup V(e.content_ok, <<"C17">>, "Mem.ContentsUntouched"),
        hits |-> H(TRUE, "Mem.NoPanic") \cup H(e.res # "panic" /\ e.mem.ok, "Mem." \o e.opk)
-            \cup H(e.res \notin {"ok", "panic"}, "Mem." \o e.opk \o ".refused") \cup H(TRUE, "Mem.ContentsUntouched"),
+            \cup H(e.res \notin {"ok", "panic"}, "Mem." \o e.opk \o ".refused") \cup H(TRUE, "Mem.ContentsUntouched")
+            \cup H(e.mem.ok /\ Len(e.mem.ctxs) > 0, "Mem.OneContextPerSlot"),
        tb |-> [tb EXCEPT !.mm = IF e.mem.ok THEN m2 ELSE m],
        cls |-> <<"mem_op", e.opk, e.res, Len(m.free), Cardinality({s \in DOMAIN m.slot : m.slot[s].used})>> ]
 =============================================================================
